@@ -183,6 +183,22 @@ def gen(rng, tier):
             for t in lookalikes(ws[i]):
                 add(" ".join(ws[:i] + [t] + ws[i + 1:]), "near-miss-token", "nfkd-maps-back" if unicodedata.normalize("NFKD", t) == ws[i] else "other-near-miss")
                 nm += 1
+    # delimiters glued to the outer ends of the text or of single words (quotes of every kind, brackets, back-ticks): such a
+    # token is not a list word, whatever a glue layer that "unwraps" values thinks; every one of these also goes through the
+    # command line (flag and environment), where that glue lives
+    DELIMS = [('"', '"'), ("'", "'"), ('"', ""), ("", '"'), ("'", ""), ("", "'"), ("`", "`"), ("(", ")"), ("[", "]"), ("<", ">"), ("\u201c", "\u201d"), ("\u2018", "\u2019"),
+              ('""', "'"), (' "', '" '), ("\t'", "'\n")]
+    for n in (12, 24):
+        ws = bip39.rand_phrase(rng, n)
+        ph = " ".join(ws)
+        for a, b in DELIMS:
+            outer = a + ph + b
+            add(outer, "near-miss-token", "outer-delimiters")
+            if "\x00" not in outer:
+                for via in ("flag", "env"):
+                    cases.append(Case("cli.address %s - default" % hx(outer), tags=("near-miss-token", "outer-delimiters", "route"), runner="cli", meta={"via": {"mnemonic": via}}))
+            i = rng.randrange(1, n - 1)
+            add(" ".join(ws[:i] + [a + ws[i] + b] + ws[i + 1:]), "near-miss-token", "inner-delimiters")
     # the whole phrase in a look-alike script / case
     for _ in range(10):
         ws = bip39.rand_phrase(rng)
